@@ -6,17 +6,21 @@
      `system(x, u)` call advances (forward hook) and that `set_refpoint(t=...)` assigns on an LTV
      system only (LTI / System: set_refpoint returns self); the coefficients A, B, c1 are read at
      the CURRENT value of the counter ([scoef s t]; an LTI system has a constant [scoef]);
-   * runsys starts at the current system time (not at 0) and makes T-1 calls;
+   * lqr_backward resets the system time to 0 (`self.system.reset()`, fix commits of C14), then
+     runsys makes T-1 calls from the current system time;
    * lqr_backward: nominal roll-out, p = Q tau + p, terminal step without linearisation,
      set_refpoint(t*dt) then F = [A B] for t < T-1, Q_t, q_t, Cholesky solve, K_t, k_t, V, v
      (c1 is not used: the recursion is in the deviation from the nominal trajectory);
-   * lqr_forward: starts at whatever time the backward pass left, T calls, cost accumulation;
+   * lqr_forward: resets the system time to 0 again, T calls, cost accumulation;
    * MPC.forward: stepper reset, `while continual` loop with best-so-far, final solve from best u.
 
    Cholesky factor + cholesky_solve of the 1x1 matrix Quu: raises unless Quu > 0, otherwise the
    solution b / Quu (the mathematical contract of the two LAPACK routines; the tie validates it
    at its tolerance).  A raising solve is [None].
-   The operation order of every formula is the order of the code. *)
+   The operation order of every formula is the order of the code.
+   The behaviour BEFORE the fix commits (no resets: roll-out from the stale time, forward pass from
+   whatever time the backward pass left; `squeeze(-2)` on every A, B) is kept as [lqr_solve_old],
+   [mpc_forward_old], [lqr_shape_raises_old] for the recorded refutations only. *)
 From Coq Require Import ZArith QArith Qabs List Bool Arith.
 Import ListNotations.
 From PV Require Import Base.Num Model.Dynamics Model.Controller.
@@ -39,6 +43,7 @@ Definition s_next (s : ssys) (t : Z) (x u : F) : F :=
 (* the two operations on the time counter that LQR performs (Model/Dynamics.v) *)
 Definition tick (s : ssys) (t : Z) : Z := step_time' (sk s) t Call.
 Definition setref (s : ssys) (t v : Z) : Z := step_time' (sk s) t (SetRef (Some v)).
+Definition treset (s : ssys) (t : Z) : Z := step_time' (sk s) t (Reset 0).     (* system.reset() *)
 
 (* runsys: x_traj[i+1] = system(x_traj[i], u_traj[i]) for i in range(T-1), from the current time *)
 Fixpoint rollout (s : ssys) (tm : Z) (x : F) (us : list F) : list F * Z :=
@@ -124,6 +129,25 @@ Definition lqr_solve (s : ssys) (dt : Z) (prob : list stage) (x_init : F) (un : 
   let T := length prob in
   let ub := match un with None => repeat zero T | Some u => u end in
   if negb (Nat.eqb (length ub) T) then None else
+  let tm0 := treset s tm in                                   (* lqr_backward: system.reset() *)
+  match prob with
+  | [] => Some ([x_init], [], zero, treset s tm0)
+  | _ :: _ =>
+      let '(xb, tm1) := runsys s tm0 T x_init ub in
+      let items := combine (combine prob xb) ub in
+      match bwd s dt 0%Z tm1 items with
+      | None => None
+      | Some (Ks, _, _, tm2) =>
+          let '(xs, us, c, tm3) := fwd s (treset s tm2) x_init (combine items Ks) zero in   (* lqr_forward: system.reset() *)
+          Some (x_init :: xs, us, c, tm3)
+      end
+  end.
+(* before the fix commits: no resets *)
+Definition lqr_solve_old (s : ssys) (dt : Z) (prob : list stage) (x_init : F) (un : option (list F))
+  (tm : Z) : option (list F * list F * F * Z) :=
+  let T := length prob in
+  let ub := match un with None => repeat zero T | Some u => u end in
+  if negb (Nat.eqb (length ub) T) then None else
   match prob with
   | [] => Some ([x_init], [], zero, tm)
   | _ :: _ =>
@@ -145,19 +169,20 @@ Definition lqr_solve (s : ssys) (dt : Z) (prob : list stage) (x_init : F) (un : 
    [cfg] is the stepper configuration AFTER MPC.__init__ lowered max_steps (Controller.mpc_cfg). *)
 Definition better (c : F) (best : option (list F * list F * F)) : bool :=
   match best with None => true | Some (_, _, cb) => c <? cb end.
-Fixpoint mpc_loop (fuel : nat) (s : ssys) (dt : Z) (prob : list stage) (x_init : F) (cfg : rtb_cfg (F:=F))
+Definition solver := ssys -> Z -> list stage -> F -> option (list F) -> Z -> option (list F * list F * F * Z).
+Fixpoint mpc_loop_gen (solve : solver) (fuel : nat) (s : ssys) (dt : Z) (prob : list stage) (x_init : F) (cfg : rtb_cfg (F:=F))
   (st : rtb_state (F:=F)) (u : option (list F)) (best : option (list F * list F * F)) (tm : Z)
   : option (rtb_state (F:=F) * option (list F * list F * F) * Z * nat) :=
   match fuel with
   | O => Some (st, best, tm, O)
   | S f =>
       if rtb_cont st then
-        match lqr_solve s dt prob x_init u tm with
+        match solve s dt prob x_init u tm with
         | None => None
         | Some (xs, us, c, tm') =>
             let st' := rtb_step cfg st [c] in
             let best' := if better c best then Some (xs, us, c) else best in
-            match mpc_loop f s dt prob x_init cfg st' (Some us) best' tm' with
+            match mpc_loop_gen solve f s dt prob x_init cfg st' (Some us) best' tm' with
             | Some (a, b, t, n) => Some (a, b, t, S n)
             | None => None
             end
@@ -167,18 +192,21 @@ Fixpoint mpc_loop (fuel : nat) (s : ssys) (dt : Z) (prob : list stage) (x_init :
 (* the loop makes at most max(1, max_steps) iterations (C20_mpc_bound); one more unit of fuel *)
 Definition mpc_fuel (cfg : rtb_cfg (F:=F)) : nat := S (Z.to_nat (Z.max 1 (rtb_max cfg))).
 (* Some (x, u, cost, system time, stepper state, number of loop iterations) *)
-Definition mpc_forward (s : ssys) (dt : Z) (prob : list stage) (x_init : F) (cfg : rtb_cfg (F:=F))
+Definition mpc_forward_gen (solve : solver) (s : ssys) (dt : Z) (prob : list stage) (x_init : F) (cfg : rtb_cfg (F:=F))
   (st : rtb_state (F:=F)) (u_init : option (list F)) (tm : Z)
   : option (list F * list F * F * Z * rtb_state (F:=F) * nat) :=
-  match mpc_loop (mpc_fuel cfg) s dt prob x_init cfg (rtb_reset st) u_init None tm with
+  match mpc_loop_gen solve (mpc_fuel cfg) s dt prob x_init cfg (rtb_reset st) u_init None tm with
   | None => None
   | Some (st', best, tm', n) =>
       let bu := match best with Some (_, us, _) => Some us | None => u_init end in
-      match lqr_solve s dt prob x_init bu tm' with
+      match solve s dt prob x_init bu tm' with
       | Some (xs, us, c, tm'') => Some (xs, us, c, tm'', st', n)
       | None => None
       end
   end.
+(* mpc.py is unchanged by the fix commits; it calls the repaired / the old LQR *)
+Definition mpc_forward := mpc_forward_gen lqr_solve.
+Definition mpc_forward_old := mpc_forward_gen lqr_solve_old.
 
 (* ---------------- the LQ problem itself (specification side) ----------------
    cost of the input sequence [us] applied from state x at time t, summed along the system's own
@@ -197,12 +225,14 @@ Fixpoint traj (s : ssys) (t : Z) (x : F) (us : list F) : list F :=
 End LQR1.
 
 (* ---------------- shapes ----------------
-   lqr_backward takes `A = system.A.squeeze(-2)`, `B = system.B.squeeze(-2)` (meant for the
-   [B, ns, 1, ns] Jacobians of an NLS).  For an LTI/LTV system A has shape [nb, ns, ns]: with
-   ns >= 2 the squeeze does nothing; with ns = 1 it removes the row dimension, F = cat(A, B) becomes
-   an [nb, 1+nc] matrix instead of nb row vectors, which is the intended F only for nb = 1;
-   for nb >= 2 the product F.mT @ V @ F raises (it is evaluated for t < T-1, i.e. when T >= 2). *)
-Definition lqr_shape_raises (nb ns T : nat) : bool :=
+   lqr_backward reads `A, B = system.A, system.B` and squeezes dimension -2 only when
+   A.ndim == x_init.ndim + 2 (the [B, ns, 1, ns] Jacobians of an NLS); an LTI/LTV A of shape
+   [nb, ns, ns] is used as it is: no shape of the property's range raises.
+   Before the fix commits `system.A.squeeze(-2)` was applied to every system: with ns = 1 it removed
+   the row dimension, F = cat(A, B) became an [nb, 1+nc] matrix instead of nb row vectors, and for
+   nb >= 2 the product F.mT @ V @ F (evaluated for t < T-1, i.e. when T >= 2) raised. *)
+Definition lqr_shape_raises (nb ns T : nat) : bool := false.
+Definition lqr_shape_raises_old (nb ns T : nat) : bool :=
   Nat.eqb ns 1 && Nat.leb 2 nb && Nat.leb 2 T.
 
 (* ------------------------------------------------------------------ evaluators over Q (tie) *)
